@@ -125,6 +125,19 @@ def coherence(pp, bump):
                 if not _close(exp, got, tol):
                     out.append({"master": mi, "glyph": name, "cached_model": name in saved,
                                 "glyph_set": str(exp)[:500], "instantiated": str(got)[:500]})
+            # glyphs this layer handed out earlier (interpolated because the master lacks
+            # them) and still holds: they must be what interpolating NOW gives
+            for name, held in list(getattr(layer, "_cache", {}).items()):
+                if name in gs:
+                    continue
+                try:
+                    fresh = _geom(layer._interpolate(name))
+                except Exception:  # noqa: BLE001
+                    continue
+                bump("pipeline_held_interpolated_glyphs_checked")
+                if not _close(_geom(held), fresh, tol):
+                    out.append({"master": mi, "glyph": name, "held_interpolated_glyph_is_stale": True,
+                                "held": str(_geom(held))[:400], "fresh": str(fresh)[:400]})
     finally:
         inst.glyph_mutators.clear()
         inst.glyph_mutators.update(saved)
